@@ -153,3 +153,19 @@ Theorem C01_ipa_core_complete :
       gvzero (gvsub (gmsm K (compute_coeffs chs)) fk) = true.
 Proof. exact @ipa_core_complete. Qed.
 Print Assumptions C01_ipa_core_complete.
+
+(* IPA end to end: the key from trim (any supported degree), every list of labelled polynomials with or without degree
+   bounds and hiding, their commitments from commit (any RNG tape), the proof from open at any point with any sponge
+   challenges, any nonzero hash-derived round challenges and any RNG tape for the hiding polynomial: check accepts the
+   true evaluations and leaves both challenge tapes where the prover left them.  (`honest d it`: the item's commitment
+   and randomness are an output of commit for its polynomial and its degree bound is the polynomial's.) *)
+From PC Require Import Proofs.IPAComplete.
+Theorem C01_ipa_complete :
+  forall (FO : FieldOps) (FL : FieldLaws FO) D s d items z chal hchal rng pf rest hrest nd,
+    itrim D s = Ok d ->
+    Forall (honest d) items ->
+    Forall (fun rc => rc <> 0) hchal ->
+    i_open d items z chal hchal rng = Ok (pf, rest, hrest, nd) ->
+    i_check d (cs_of items) z (vs_of z items) pf chal hchal = Ok (true, rest, hrest).
+Proof. exact @ipa_complete_trimmed. Qed.
+Print Assumptions C01_ipa_complete.
